@@ -59,7 +59,7 @@ PROPS = {
         "assumptions": COMMON_ASSUME + ["name lookups signalling 'not found' by index -1 with return 0 are counted as rejections"],
     },
     "C12": {
-        "arms": [arm("solve", 1, weight=4), arm("solve", 0, weight=2), arm("hist", 1, weight=3)],
+        "arms": [arm("solve", 1, weight=3), arm("solve", 0, weight=2), arm("bases", 0, weight=3), arm("bases", 1, weight=1), arm("hist", 1, weight=2)],
         "rule": "non-trivial = a basis handed back with OPTIMAL was evaluated by exact basis algebra, or a verdict function was compared with the exact basic solution of a caller-supplied non-singular basis; distinct = distinct plan hashes",
         "assumptions": COMMON_ASSUME + ["verdicts on caller supplied bases are sampling of a pure function (labelled so in DESIGN.md)"],
     },
@@ -69,7 +69,7 @@ PROPS = {
         "assumptions": COMMON_ASSUME,
     },
     "C17": {
-        "arms": [arm("hist", 1, weight=3), arm("invalid", 0, weight=1), arm("solve", 1, weight=2), arm("config", 1, weight=1), arm("copy", 1, weight=2), arm("io", 1, weight=2), arm("reader", 1, weight=1), arm("lu", 1, weight=1), arm("cli", 1, weight=1), arm("resolve", 1, weight=2), arm("grow", 1, weight=1), arm("hist", 1, "asan0", weight=1)],
+        "arms": [arm("hist", 1, weight=3), arm("invalid", 0, weight=1), arm("solve", 1, weight=2), arm("config", 1, weight=1), arm("copy", 1, weight=2), arm("io", 1, weight=2), arm("reader", 1, weight=1), arm("lu", 1, weight=1), arm("cli", 1, weight=1), arm("resolve", 1, weight=2), arm("grow", 1, weight=1), arm("bases", 1, weight=1), arm("hist", 1, "asan0", weight=1)],
         "rule": "union of all profiles under ASan+UBSan (crash, hang and sanitizer reports are violations); plus twin runs: a sample of plans is executed in three fresh processes (asan / plain -O2 / asan with GMP on malloc; different fresh-memory fill pattern and environment size) whose transcripts - return codes, statuses, digests of every solution vector, bases, bytes of written files - must be identical; thorough adds valgrind memcheck on the plain binary; non-trivial = a run of >= 3 operations; distinct = distinct plan hashes",
         "assumptions": COMMON_ASSUME + ["reads of uninitialised memory are detected differentially (fill patterns) and by valgrind on a subset; MSan is unusable with uninstrumented libgmp"],
         "twin": True,
@@ -112,7 +112,7 @@ PROPS = {
         "assumptions": COMMON_ASSUME + ["the problem a readable file denotes is taken to be what the library's reader makes of it (C08/C09 decide that relation)"],
     },
     "C20": {
-        "arms": [arm("hist", 1, weight=3), arm("invalid", 1, weight=3), arm("solve", 1, weight=2), arm("config", 1, weight=1)],
+        "arms": [arm("hist", 1, weight=3), arm("invalid", 1, weight=3), arm("solve", 1, weight=2), arm("config", 1, weight=1), arm("reader", 1, weight=2), arm("io", 1, weight=2), arm("copy", 1, weight=1)],
         "rule": "fd 1 and 2 are captured around every library call with a log handler installed; non-trivial = a run of >= 3 operations (every run exercises the oracle after each call); distinct = distinct plan hashes",
         "assumptions": COMMON_ASSUME,
         "nontrivial_any": True,
